@@ -395,7 +395,11 @@ class World:
             kind, g = parse_out(ln)
             self.counts["lines"] += 1
             if kind is None:
-                self.v("C09", "grammar", "not a valid IAuth message: %r" % ln[:200])
+                if re.match(r"^[DRkK] -?\d+ ", ln):
+                    # a verdict whose content cannot even be parsed is not faithful either
+                    self.v(("C09", "C05"), "grammar", "verdict line is not a valid IAuth message: %r" % ln[:200])
+                else:
+                    self.v("C09", "grammar", "not a valid IAuth message: %r" % ln[:200])
                 continue
             if kind == "V":
                 self.banner = True
@@ -495,7 +499,8 @@ class World:
         for cid in sorted(self.live):
             i = self.live[cid]
             out = [s for s, a in i.awaiting.items() if a]
-            q_ok = (not out) or (i.expired and all(i.qstep[s] <= i.expiry_step for s in out))
+            # "a final answer to every query sent about it OR an expired request timeout"
+            q_ok = (not out) or i.expired
             if self.data_ok(i) and q_ok and not self.blocked_by_bang(i):
                 self.v("C03", "stuck", "client %d has all data (%s), no unanswered query (outstanding=%s expired=%s), "
                        "no unmet +! (modes=%s stamp=%s) but no verdict after step %d (%s)" %
